@@ -116,8 +116,14 @@ def run(ctx):
     h = ctx.build_harness("src", FILES, shared=["chars"])
     fzf = ctx.build_fzf()
 
+    universe = sorted({json.dumps(c["line"]) for c in lines})
+    uid = {l: i for i, l in enumerate(universe)}
+    upath = os.path.join(ctx.work, "universe.json")
+    with open(upath, "w") as fh:
+        fh.write("[" + ",".join(universe) + "]")
+    e2e_env = {"VERIF_FZF": fzf, "VERIF_UNIVERSE": upath}
     if ctx.replay:
-        return replay_one(ctx, h, fzf, env, menu, cb)
+        return replay_one(ctx, h, env, e2e_env)
 
     # ---- in-package: lines
     def exp_line(c):
@@ -187,11 +193,6 @@ def run(ctx):
                  kf=lambda c, exp, r: {"site": "ParseRange", "expression": expr(c["e"])})
 
     # ---- end to end: the real binary in filter mode; expected match sets = TLC's per-line results transposed
-    universe = sorted({json.dumps(c["line"]) for c in lines})
-    uid = {l: i for i, l in enumerate(universe)}
-    upath = os.path.join(ctx.work, "universe.json")
-    with open(upath, "w") as fh:
-        fh.write("[" + ",".join(universe) + "]")
     exp_sets, wexp_sets = {}, {}
     for c in lines:
         k, i = dkey(c["d"]), uid[json.dumps(c["line"])]
@@ -231,7 +232,7 @@ def run(ctx):
         return {"site": "e2e", "delimiter": dkey(c["d"]), "with_nth": c["spec"] is not None, "stream": c["stream"]}
 
     replay_cases(ctx, h, "TestVerifFieldsE2E", e2e, lambda c: c["exp"], "e2e",
-                 env={"VERIF_FZF": fzf, "VERIF_UNIVERSE": upath}, describe=desc_e2e, kf=kf_e2e, timeout=1500)
+                 env=e2e_env, describe=desc_e2e, kf=kf_e2e, timeout=1500)
 
     # ---- undetermined offsets (exact / fuzzy terms): every observed match is judged by the specification
     und = []
@@ -404,17 +405,20 @@ def random_inputs(ctx, total):
 
 
 # ------------------------------------------------------------------------------------------------ --replay
-def replay_one(ctx, h, fzf, env, menu, cb):
+def replay_one(ctx, h, env, e2e_env):
+    """bin/check C10 <tier> --replay <file>: re-run exactly the recorded case (same tier as recorded, so that the
+    e2e universe is the same)."""
     rp = json.load(open(ctx.replay))["case"]
-    label = rp.get("label")
     if "record" in rp:
         r = rp["record"]
         inp = {k: v for k, v in r.items() if k not in ("toks", "ok", "t", "p", "matched", "s", "e", "pos", "raw", "shown",
                                                         "acc", "out")}
         record_and_judge(ctx, h, "TestVerifFieldsRecord", [inp], "Judge_Fields", "Judge_Fields.cfg", "rec", env=env, workers=1)
         return "model_checking"
-    e = dict(env)
-    e.update(rp.get("env", {}))
+    e = dict(rp.get("env", {}))
+    e.update(env)
+    if rp["harness"] == "TestVerifFieldsE2E":
+        e.update(e2e_env)
     exp = rp["expected"]
-    replay_cases(ctx, h, rp["harness"], [rp["case"]], lambda c: exp, label, env=e)
+    replay_cases(ctx, h, rp["harness"], [rp["case"]], lambda c: exp, rp.get("label", "replay"), env=e)
     return "model_checking"
